@@ -281,6 +281,50 @@ def check_owner_moves(run, db):
     return n
 
 
+def check_block_stack(run, db):
+    """the intrusive stack of blocks: push links a header placed at the block's start in front of the old head and records
+    size - offset; pop unlinks the head and returns (header address, usable size + offset) - the block as it was pushed;
+    steal_top unlinks the other stack's head and links exactly that node in front of this stack's head (the block is on one stack
+    at any time).  Decided on the final symbolic values of the fields, not on the spelling."""
+    OFF = 'detail::memory_block_stack::implementation_offset()'
+    n = 0
+    for f in db.find(cls_t='detail::memory_block_stack'):
+        if f.short not in ('push', 'pop', 'steal_top') or f.pattern:
+            continue
+        n += 1
+        roles = {0: 'other'} if f.short == 'steal_top' else ({0: 'block'} if f.short == 'push' else {})
+        S = [x for x in fwd.summarize(f, db=db, roles=roles, no_forward=True) if x.end == 'return']
+        probs = []
+        if len(S) != 1:
+            probs.append('%d returning paths' % len(S))
+        for x in S:
+            fl = {k: sym.canon(v, roles) for k, v in x.fields.items()}
+            if f.short == 'steal_top':
+                linked = [w for w in x.writes if w[0] == '$other.head_.prev' and w[1] == 'this.head_']
+                okk = fl.get('$other.head_') == '$other.head_.prev' and fl.get('this.head_') == '$other.head_' and len(linked) == 1 \
+                    and not [w for w in x.writes if w[0].endswith('.prev') and w not in linked]
+                if not okk:
+                    probs.append('after steal_top the links are %s; expected: other.head_ = old other.head_->prev, stolen->prev = old head_, head_ = stolen' % sorted(fl.items()))
+            elif f.short == 'pop':
+                if fl != {'this.head_': 'this.head_.prev'}:
+                    probs.append('pop leaves %s, expected head_ = head_->prev' % sorted(fl.items()))
+                if x.ret not in ('memory_block{this.head_,(%s + this.head_.usable_size)}' % OFF, 'memory_block{this.head_,(this.head_.usable_size + %s)}' % OFF):
+                    probs.append('pop returns %s, not (header address, usable size + offset)' % x.ret)
+            else:
+                cons = [c[0] for c in x.calls if c[1].get('k') == 'construct' and 'memory_block_stack::node' in str(c[1].get('type', ''))]
+                if not any(c.startswith('detail::memory_block_stack::node{this.head_,($block.size - %s)}' % OFF) for c in cons):
+                    probs.append('push builds %s, not node{old head, block.size - offset}' % (cons[:1] or 'no node'))
+                if fl.get('this.head_') != 'new($block.memory)detail::memory_block_stack::node':
+                    probs.append('push sets head_ to %s, not to the header placed at block.memory' % fl.get('this.head_'))
+        inst = '%s [%s]' % (f.display, db.config)
+        if probs:
+            run.violation('R-ARENA.stack', inst, f.loc, '; '.join(sorted(set(probs))[:2]), site={'function': 'detail::memory_block_stack::' + f.short, 'role': 'block on exactly one stack, unchanged'})
+        else:
+            run.ok('R-ARENA.stack', inst, f.loc, {'push': 'header at block.memory, size - offset, linked in front', 'pop': 'head unlinked, (header, usable + offset) returned',
+                                                    'steal_top': 'unlinked there, linked here'}[f.short])
+    return n
+
+
 def check_failed_block_request(run, db):
     """a block request that fails (the upstream call throws, or the source itself throws out_of_memory) leaves the arena and the block
     source as they were: cursors, sizes and lists are written only after the memory was obtained (shared rule R-THROW.7 of C03,
@@ -290,6 +334,7 @@ def check_failed_block_request(run, db):
 
 
 def run(run):
+    run.rule('R-ARENA.stack', 'push / pop / steal_top of the intrusive block stack', floor=6)
     run.rule('R-ARENA.fail', 'a failed block request leaves arena and block source unchanged', floor=6)
     run.rule('R-ARENA.move', 'move construction / assignment / swap of block owners transfer every block list together with the block source', floor=10)
     run.rule('R-ARENA.pop', 'popped blocks flow only into deallocate_block', floor=4)
@@ -312,6 +357,8 @@ def run(run):
             run.broke('memory_arena_cache members not found [%s]' % cfg)
         if check_block_sources(run, db) < 3:
             run.broke('block sources not found [%s]' % cfg)
+        if check_block_stack(run, db) < 3:
+            run.broke('memory_block_stack members not found [%s]' % cfg)
         if check_failed_block_request(run, db) < 3:
             run.broke('block request functions not found [%s]' % cfg)
         if check_owner_moves(run, db) < 6:
